@@ -38,7 +38,7 @@ NS = [16, 17, 12, 15, 24, 25, 9, 8]
 
 def bounds(tier):
     return {'classes': C.NAMES, 'N': NS if tier == 'thorough' else '16 (default) + deviations', 'NFFT': 'None, nextpow2, N+1, N+2, 2N-1, 2N, 2N+1, 3N, 4N+1, next prime (admissible ones)',
-            'sampling': A.FS, 'tone_bins': 'every bin', 'deviation_bound': 2 if tier == 'quick' else 'full product',
+            'sampling': A.FS, 'sample_dtype': 'float64/complex128 + float32/complex64 (quick: a deviation; thorough: N in %s at the first sampling rate)' % NS[:2], 'tone_bins': 'every bin', 'deviation_bound': 2 if tier == 'quick' else 'full product',
             'orders': {k: len(v) for k, v in ORDERS.items()}}
 
 
@@ -55,7 +55,7 @@ def nfft_ladder(N):
 
 
 def configs(cls, tier):
-    dims = {'N': NS, 'NFFT': None, 'fs': A.FS, 'o': list(range(len(ORDERS[cls]))), 'cplx': [True, False]}
+    dims = {'N': NS, 'NFFT': None, 'fs': A.FS, 'o': list(range(len(ORDERS[cls]))), 'cplx': [True, False], 'single': [False, True]}
     if tier == 'quick':
         # NFFT ladder depends on N: enumerate deviations over index positions
         dims['NFFT'] = list(range(10))
@@ -63,14 +63,16 @@ def configs(cls, tier):
             lad = nfft_ladder(pt['N'])
             if pt['NFFT'] >= len(lad):
                 continue
-            yield dict(N=pt['N'], NFFT=lad[pt['NFFT']], fs=pt['fs'], o=ORDERS[cls][pt['o']], cplx=pt['cplx'])
+            yield dict(N=pt['N'], NFFT=lad[pt['NFFT']], fs=pt['fs'], o=ORDERS[cls][pt['o']], cplx=pt['cplx'], single=pt['single'])
     else:
         for N in NS:
             for nf in nfft_ladder(N):
                 for fs in A.FS:
                     for o in ORDERS[cls]:
                         for cplx in (True, False):
-                            yield dict(N=N, NFFT=nf, fs=fs, o=o, cplx=cplx)
+                            yield dict(N=N, NFFT=nf, fs=fs, o=o, cplx=cplx, single=False)
+                            if N in NS[:2] and fs == A.FS[0]:
+                                yield dict(N=N, NFFT=nf, fs=fs, o=o, cplx=cplx, single=True)
 
 
 def shards(tier):
@@ -125,12 +127,16 @@ def run_shard(desc, R, tier):
             bins = [k for k in range(nf // 2 + 1) if 4.0 / N <= k / float(nf) <= 0.5 - 4.0 / N]
             if not bins:
                 bins = [None]          # structural clauses only (constant + noise data)
+        if cfg['single']:
+            bins = [None]              # single-precision records: structural clauses on a noise-like record (a 60 dB tone is not resolvable by a float32 recursion)
         for k in bins:
-            eval_point(dict(cls=cls, N=N, NFFT=NFFT, fs=cfg['fs'], o=o, cplx=cplx, k=k), R)
+            eval_point(dict(cls=cls, N=N, NFFT=NFFT, fs=cfg['fs'], o=o, cplx=cplx, k=k, single=cfg['single']), R)
 
 
 def tone(N, nf, k, cplx):
     n = np.arange(N)
+    if cplx and k is None:
+        return A.eta(N, True) + 0.3 * np.exp(0.9j * n + 0.2j)
     if cplx:
         return np.exp(2j * np.pi * ((k * n) % nf) / nf + 0.3j) + EPS * A.eta(N, True)
     if k is None:
@@ -162,10 +168,12 @@ def eval_point(pt, R):
     cls, N, NFFT, fs, o, cplx, k = pt['cls'], int(pt['N']), pt['NFFT'], float(pt['fs']), pt['o'], bool(pt['cplx']), pt['k']
     nf = C.resolve_nfft(NFFT, N)
     x = tone(N, nf, k, cplx)
+    if pt.get('single'):
+        x = x.astype(np.complex64 if cplx else np.float32)      # single-precision record (IQ capture / float32 audio)
     oo = dict(o)
     if cls in ('pmusic', 'pev'):
         oo['NSIG'] = 1 if cplx else 2
-    feats = {'cls': cls, 'dtype': 'complex' if cplx else 'real', 'nfft': 'odd' if nf % 2 else 'even'}
+    feats = {'cls': cls, 'dtype': ('complex' if cplx else 'real') + ('-single' if pt.get('single') else ''), 'nfft': 'odd' if nf % 2 else 'even'}
     R.point(pt)
     R.calls()
     try:
